@@ -972,6 +972,22 @@ func (e *CEnv) callExpr(x *CExpr) (Val, error) {
 		}
 		c.smt.declareFun("iface_payload", []string{"Int"}, "Int")
 		return Val{T: types.NewPointer(st), Term: app("iface_payload", c.termOf(iv))}, nil
+	case "valueIn":
+		// valueIn(x, T): the T stored by value in the interface value x (meaningful when holdsValue(x, T))
+		if len(x.Args) != 2 {
+			return Val{}, fmt.Errorf("valueIn(iface, Type)")
+		}
+		iv, err := e.eval(x.Args[0])
+		if err != nil {
+			return Val{}, err
+		}
+		tt, err := e.resolveType(&CType{Kind: "name", Name: strings.ReplaceAll(x.Args[1].String(), " ", "")})
+		if err != nil {
+			return Val{}, err
+		}
+		fn := "iface_val_" + sanitize(sortTag(c.sortOf(tt)))
+		c.smt.declareFun(fn, []string{"Int"}, c.sortOf(tt))
+		return Val{T: tt, Term: app(fn, c.termOf(iv))}, nil
 	case "holdsValue":
 		// holdsValue(x, T): the dynamic type of the interface value x is exactly T (a T stored by value, also for struct types)
 		if len(x.Args) != 2 {
